@@ -140,7 +140,19 @@ def generate(rng: Prng, tier: str) -> dict:
     big = 25 if tier == "quick" else 40
     trees = [gen_model(w, w.choice([1, 2, 3, 4, 5, 6, 8, 12, 17, big])) for _ in range(n_trees)]
     steps = [gen_step(w) for _ in range(w.randint(5, 40))]
-    return {"prop": PROP, "trees": trees, "steps": steps, "config": "fault_free"}
+    dv = rng.stream("derive")
+    out = []
+    for st in steps:
+        if dv.chance(0.05):
+            # "for all trees": a tree the library itself built (two trees joined, a subtree cut out) becomes an owner
+            # like any other - its views must be windows onto ITS columns
+            out.append({"k": "derive", "t": dv.below(64), "t2": dv.below(64), "how": dv.choice(["cat", "cat", "cat_self", "subtree"]),
+                        "n1": dv.below(64), "n2": dv.below(64)})
+            out.append({"k": "mk", "t": -1, "h": dv.below(64), "what": dv.choice(["getitem", "slice", "iter", "segs", "node"]),
+                        "i": dv.choice([-1, -1, -2, 0, dv.randint(-30, 30)]), "j": dv.below(64),
+                        "sl": [dv.choice([None, -3, 2]), dv.choice([None, -1, 100]), dv.choice([None, 1, 2, -1])]})
+        out.append(st)
+    return {"prop": PROP, "trees": trees, "steps": out, "config": "fault_free"}
 
 
 # ---------------------------------------------------------------------------
@@ -629,6 +641,41 @@ def execute(program: dict) -> dict:
                         wrote_with_handles = True
                     cur_op = f"write_owner:{o['kind']}:{o.get('made_by', 'initial')}"
                     world.log(si, "write_owner", oi, i, col, val)
+                elif k == "derive":
+                    from swcgeom.core import cat_tree, get_subtree
+
+                    cands = [i for i, o in enumerate(owners) if o["kind"] == "tree" and "rgb" not in o]
+                    if not cands:
+                        world.log(si, k, "no plain tree")
+                        continue
+                    ai = cands[step["t"] % len(cands)]
+                    A = owners[ai]
+                    same = [i for i in cands if ("level" in owners[i]["m"]) == ("level" in A["m"])
+                            and owners[i].get("level_name") == A.get("level_name")]
+                    bi = ai if step["how"] == "cat_self" else same[step["t2"] % len(same)]
+                    B = owners[bi]
+                    na, nb = len(A["m"]["id"]), len(B["m"]["id"])
+                    if sorted(A["m"]["id"]) != list(range(na)) or sorted(B["m"]["id"]) != list(range(nb)) or \
+                            any(p >= i for i, p in enumerate(A["m"]["pid"])) or any(p >= i for i, p in enumerate(B["m"]["pid"])):
+                        world.log(si, k, "operands not in sorted numbering")
+                        continue
+                    if step["how"] == "subtree":
+                        res = get_subtree(A["obj"], step["n1"] % na)
+                        made = "get_subtree"
+                    else:
+                        res = cat_tree(A["obj"], B["obj"], step["n1"] % na, step["n2"] % nb)
+                        made = "cat_tree"
+                    cur_op = f"derive:{made}"
+                    lname = A.get("level_name", "level")
+                    raw = {c: np.asarray(res.ndata[c]).reshape(-1).tolist() for c in ATTRS + ["id", "pid"]}
+                    m2 = {c: ([int(v) for v in raw[c]] if c in ("type", "id", "pid") else [float(v) for v in raw[c]]) for c in raw}
+                    if "level" in A["m"] and lname in res.ndata:
+                        m2["level"] = [int(v) for v in np.asarray(res.ndata[lname]).reshape(-1)]
+                    chk(len({len(v) for v in m2.values()}) == 1, "tree_read", f"{made}: columns of different lengths")
+                    owners.append({"kind": "tree", "obj": res, "m": m2, "idpid": True, "made_by": made,
+                                   "comments": list(res.comments), "level_name": lname})
+                    world.probe("c09.owner_built_by_the_library")
+                    world.log(si, "derive", made, len(m2["id"]))
                 elif k == "copy":
                     oi = step["t"] % len(owners)
                     o = owners[oi]
